@@ -91,7 +91,8 @@ func (o UnmarshalOptions) unmarshal(b []byte, m protoreflect.Message) (out proto
 	if o.Resolver == nil {
 		o.Resolver = protoregistry.GlobalTypes
 	}
-	if !o.Merge {
+	merge := o.Merge
+	if !merge {
 		Reset(m.Interface())
 	}
 	allowPartial := o.AllowPartial
@@ -129,7 +130,15 @@ func (o UnmarshalOptions) unmarshal(b []byte, m protoreflect.Message) (out proto
 	if err != nil {
 		return out, err
 	}
-	if allowPartial || (out.Flags&protoiface.UnmarshalInitialized != 0) {
+	if allowPartial {
+		return out, nil
+	}
+	if merge {
+		// The flag only covers what was parsed from b: the content that was
+		// already in m may lack required fields.
+		out.Flags &^= protoiface.UnmarshalInitialized
+	}
+	if out.Flags&protoiface.UnmarshalInitialized != 0 {
 		return out, nil
 	}
 	return out, checkInitialized(m)
